@@ -202,6 +202,45 @@ func RunInProcess(inv Invocation, inDir, outDir string, s Sched, root string) (r
 	return
 }
 
+// RunDirInProcess runs the generator's -dir mode over root: every sub-directory holds one materialised
+// invocation ("openapi.yaml" + optional ".goag.yaml") and receives its output in <sub>/out. All sub-directories
+// share the flags of the first invocation (that is what -dir mode does).
+func RunDirInProcess(invs []Invocation, names []string, rootDir string, s Sched, root string) (res Result) {
+	for i, inv := range invs {
+		if _, _, err := inv.Materialise(filepath.Join(rootDir, names[i])); err != nil {
+			panic(err)
+		}
+	}
+	verifhook.ResetRun(s.Tape, s.Active)
+	verifhook.Clock = baseClock.Add(s.ClockOffset)
+	simos.PathMap = func(p string) string { return runDirRe.ReplaceAllString(strings.TrimPrefix(p, root), "") }
+	simos.CLIMode = false
+	simos.Ambient, verifhook.Ambient = s.Ambient, s.Ambient
+	verifhook.Stall = s.Stall
+	simos.Reset(-1, simos.KNone, 1, 2)
+	func() {
+		defer func() {
+			if r := recover(); r != nil {
+				res.Panic = fmt.Sprint(r)
+			}
+		}()
+		f := invs[0]
+		g := goag.Generator{GenClient: f.GenClient, GenAPIHandler: f.APIHandler, DoNotEdit: f.DoNotEdit}
+		if e := g.GenerateDir(rootDir, "out", f.Package, f.SpecName, f.BasePath, ".goag.yaml", f.SpecHandler); e != nil {
+			res.Err = e.Error()
+		}
+	}()
+	for id := range verifhook.RunDeviated {
+		res.Deviated = append(res.Deviated, id)
+	}
+	sort.Ints(res.Deviated)
+	simos.Reset(-1, simos.KNone, 1, 2)
+	simos.Ambient, verifhook.Ambient = 0, 0
+	verifhook.Stall = false
+	verifhook.ResetRun(nil, nil)
+	return
+}
+
 // RunCLI executes one invocation through the instrumented cmd/goag binary.
 func RunCLI(cli string, inv Invocation, inDir, outDir string, s Sched, tapeVals []uint32, masked []int, planFile string) (res Result) {
 	spec, cfg, err := inv.Materialise(inDir)
